@@ -225,8 +225,26 @@ def dump_instance(args):
                     getattr(c2, prop)
                 except ValueError:
                     pass
+            # ... and whose query methods were all USED before deform (dense 1-D, dense 2-D and sparse arguments)
+            probe = np.zeros(2 * n, dtype='uint8')
+            probe[::3] = 1
+            from scipy.sparse import csr_matrix as _csr2
+            for arg in (probe, probe.reshape(1, -1), _csr2(probe.reshape(1, -1))):
+                for meth in ('measure_syndrome', 'in_codespace', 'logical_errors', 'is_logical_error', 'is_success'):
+                    try:
+                        getattr(c2, meth)(arg)
+                    except Exception:
+                        pass
             c2.deform(dname, **kwargs)
             diff = []
+            for arg, form in ((probe, 'dense 1-D'), (probe.reshape(1, -1), 'dense 2-D'), (_csr2(probe.reshape(1, -1)), 'csr')):
+                for meth in ('measure_syndrome', 'in_codespace', 'logical_errors', 'is_success'):
+                    try:
+                        a_, b_ = getattr(c2, meth)(arg), getattr(code, meth)(arg)
+                        if not np.array_equal(np.asarray(a_).ravel(), np.asarray(b_).ravel()):
+                            diff.append('%s(%s)' % (meth, form))
+                    except Exception as ex_:
+                        diff.append('%s(%s) raised %s' % (meth, form, type(ex_).__name__))
             H2 = c2.stabilizer_matrix.tocsr()
             if (H2 != Hc).nnz != 0 or H2.shape != Hc.shape:
                 diff.append('stabilizer_matrix')
